@@ -14,7 +14,10 @@ HMODULE = "H_C08"
 RULE = ("lattice_lib.project_by_dykstra on random valid configurations: every family singly and in "
         "combinations (monotonicity, unimodality, Edgeworth / trapezoid trusts of both directions, monotonic and "
         "range dominance, joint monotonicity, joint unimodality), rank 1-4, sizes 2-4, units 1-3, iterations 0-6; "
-        "kernels: random, far, ties, constant, and additive monotone kernels that are feasible for most configs. "
+        "kernels: random, far, ties, constant, additive monotone kernels that are feasible for most configs, and "
+        "'feasible_rich' kernels (latgen.feasible_rich: NNLS projection of a random kernel onto the polyhedron of ALL "
+        "configured families, made exactly representable and re-checked with the exact predicates: ties, active and "
+        "slack constraints, not additive) that every iteration count must return unchanged. "
         "The Coq model runs the same sweeps. PWL: project_all_constraints with 0-12 iterations (model of C04). "
         "Implementation-side predicates: a feasible kernel is returned unchanged; for the six exact families the "
         "result of any generated number of sweeps is not farther from a feasible kernel (constant kernel; NNLS-"
@@ -127,12 +130,22 @@ def gen_descs(ctx):
   out = []
   for _ in range(ctx.n(150, 3000)):
     cfg = single_family_cfg(rng)
-    klass = rng.choice(["random", "random", "far", "ties", "constant", "feasible", "feasible"])
-    w = feasible_candidate(rng, cfg) if klass == "feasible" else latgen.gen_kernel(rng, cfg, klass)
+    klass = rng.choice(["random", "random", "far", "ties", "constant", "feasible", "feasible", "feasible_rich",
+                        "feasible_rich"])
+    w = None
+    if klass == "feasible_rich":
+      # meets EVERY configured family exactly (project_by_dykstra knows no bounds); constant when the generator
+      # finds no other exactly representable kernel
+      w, _ = latgen.feasible_rich(rng, cfg, with_bounds=False)
+      if w is None:
+        klass = "constant"
+    if w is None:
+      w = feasible_candidate(rng, cfg) if klass == "feasible" else latgen.gen_kernel(rng, cfg, klass)
     out.append(dict(kind="dyk", cfg=cfg, kclass=klass, w=w, iters=rng.choice([0, 1, 1, 2, 3, 6])))
   for d in pwl.gen_descs(ctx)[:ctx.n(60, 1500)]:
     if d["kind"] == "proj":
       d = dict(d, kind="pwl", via_layer=False)
+      d.pop("dtype", None)     # float64, direct constraint object (the float32 / layer routes belong to C04)
       out.append(d)
   # nearest-point tests (implementation only): exact families, one unit, small lattices
   for _ in range(ctx.n(6, 150)):
@@ -247,17 +260,15 @@ def focus(ctx, desc):
   for klass in ("random", "far", "ties"):
     out.append(dict(kind="converge", cfg=cfg, w=latgen.gen_kernel(rng, cfg, klass), iters=300))
   out.append(dict(kind="dyk", cfg=cfg, kclass="feasible", w=feasible_candidate(rng, cfg), iters=3))
+  for it in (1, 3, 6):
+    w, _ = latgen.feasible_rich(rng, cfg, with_bounds=False)
+    if w is not None:
+      out.append(dict(kind="dyk", cfg=cfg, kclass="feasible_rich", w=w, iters=it))
   return out
 
 
 def all_viols(w, cfg):
-  s = cfg["sizes"]
-  return max(latpred.mono_viol(w, s, cfg["monos"]), latpred.unimodality_viol(w, s, cfg["uni"]),
-             latpred.edgeworth_viol(w, s, cfg["edge"]), latpred.trapezoid_viol(w, s, cfg["trap"]),
-             latpred.monotonic_dominance_viol(w, s, cfg["mdom"]), latpred.range_dominance_viol(w, s, cfg["rdom"]),
-             latpred.joint_monotonicity_viol(w, s, cfg["jmono"]),
-             max([latpred.joint_unimodality_viol(np.asarray(w)[:, u], s, cfg["juni"])
-                  for u in range(np.asarray(w).shape[1])] or [-np.inf]))
+  return latpred.all_viols(w, cfg)
 
 
 def coq_dyk_cfg(cfg, iters):
@@ -316,10 +327,11 @@ def eval_cases(ctx, descs):
   for d in descs:
     if d["kind"] == "pwl":
       c = pwl.eval_cases(ctx, [dict(d, kind="proj")])[0]
-      # feasible fixed / idempotence are already evaluated by the C04 predicate; keep only those clauses
+      # feasible fixed ("feasible: a kernel satisfying every configured constraint is changed") / idempotence are
+      # already evaluated by the C04 predicate; keep only those clauses
       fail = None
       if c.pred_fail:
-        cl = [x for x in c.pred_fail.split("; ") if x.startswith("idempotence")]
+        cl = [x for x in c.pred_fail.split("; ") if x.startswith("idempotence") or x.startswith("feasible:")]
         fail = "; ".join("PWL " + x for x in cl) or None
       cases.append(Case(d, coq=c.coq.replace("CProj", "CPwl", 1), pred_fail=fail, nontrivial=c.nontrivial,
                         klass="pwl_" + c.klass))
@@ -365,6 +377,8 @@ def eval_cases(ctx, descs):
     feasible = all_viols(W, cfg) <= 0.0
     if feasible and np.abs(out - W).max() > 1e-9 * scale:
       fails.append("a kernel satisfying every configured constraint is changed by %r" % np.abs(out - W).max())
+    if d["kclass"] == "feasible_rich" and not feasible:
+      fails.append("harness: a feasible_rich kernel does not pass the exact predicates")
     # Fejer-type bound (proved for the model: C08_dykstra_never_farther_from_feasible): for the six exact
     # families the result of ANY number of sweeps is not farther from ANY feasible kernel than the input was.
     if not cfg["rdom"] and not cfg["juni"] and np.all(np.isfinite(out)):
